@@ -27,7 +27,7 @@ partial def loop {σ : Type} (h : IO.FS.Stream) (out : IO.FS.Stream)
   if line.isEmpty then
     out.flush
     return ()
-  let l := if line.endsWith "\n" then line.dropRight 1 else line
+  let l := String.ofList (line.toList.filter (fun c => c != '\n' && c != '\r'))
   let (s', o) := step s (words l)
   out.putStrLn o
   loop h out step s'
